@@ -7,7 +7,7 @@
 From Coq Require Import ZArith QArith Qabs Qcanon List Lia Reals.
 From Coquelicot Require Import Coquelicot.
 From DV Require Import Base.Field Base.FieldFacts Base.LinAlg Base.QcInst Model.Sampler Model.SamplerQc Model.Flow Model.FlowHull Model.FlowQc
-  Gen.FlowAlg Proofs.C11Interp Proofs.C11Compose Proofs.C11Compose3 Proofs.C11Expv Proofs.C11Hull Proofs.C11Gen Base.RInst Proofs.C11Limit Proofs.C11LimitModel.
+  Gen.FlowAlg Proofs.C11Interp Proofs.C11Compose Proofs.C11Compose3 Proofs.C11Expv Proofs.C11Hull Proofs.C11Gen Base.RInst Proofs.C11Limit Proofs.C11LimitModel Proofs.C11LimitAffine.
 Import ListNotations.
 
 Section Statements.
@@ -199,6 +199,37 @@ Proof.
 Qed.
 Print Assumptions C11_convergence_scalar.
 Print Assumptions C11_convergence_diagonal_partial.
+
+(* 7b. generators WITH translation, G = [diag(g) | h] (per-axis scaling velocity field v_a(x) = g_a x_a + h_a): every entry of
+       the closed form (I + G/2^k)^(2^k) converges to the corresponding entry of the matrix exponential
+       exp [diag(g) h; 0 0] = [diag(e^g)  h .* phi1(g); 0 1],  phi1(g) = (e^g - 1)/g  (1 at g = 0);
+       and that limit is the time-one map of the flow of the velocity field (axis_flow solves x' = g x + h, x(0) = x).
+       Still PARTIAL for generators with off-diagonal entries in the linear part. *)
+Theorem C11_convergence_scaling_translation_2d :
+  forall gx gy hx hy : R,
+  let A := fun k : nat => hpow (K:=RF) 2 (hone_plus (K:=RF) 2 (/ 2 ^ k) (H2 (K:=RF) gx 0 hx 0 gy hy)) (2 ^ k) in
+  is_lim_seq (fun k => hentry (A k) 0 0) (exp gx) /\ is_lim_seq (fun k => hentry (A k) 1 1) (exp gy) /\
+  is_lim_seq (fun k => hentry (A k) 0 2) (hx * phi1 gx) /\ is_lim_seq (fun k => hentry (A k) 1 2) (hy * phi1 gy) /\
+  (forall k, hentry (A k) 0 1 = 0 /\ hentry (A k) 1 0 = 0).
+Proof. exact closed_form_converges_scaling_translation2. Qed.
+Theorem C11_convergence_scaling_translation_3d :
+  forall gx gy gz hx hy hz : R,
+  let A := fun k : nat => hpow (K:=RF) 3 (hone_plus (K:=RF) 3 (/ 2 ^ k) (H3 (K:=RF) gx 0 0 hx 0 gy 0 hy 0 0 gz hz)) (2 ^ k) in
+  is_lim_seq (fun k => hentry (A k) 0 0) (exp gx) /\ is_lim_seq (fun k => hentry (A k) 1 1) (exp gy) /\
+  is_lim_seq (fun k => hentry (A k) 2 2) (exp gz) /\
+  is_lim_seq (fun k => hentry (A k) 0 3) (hx * phi1 gx) /\ is_lim_seq (fun k => hentry (A k) 1 3) (hy * phi1 gy) /\
+  is_lim_seq (fun k => hentry (A k) 2 3) (hz * phi1 gz).
+Proof. exact closed_form_converges_scaling_translation3. Qed.
+Theorem C11_limit_is_time_one_flow :
+  forall g h x : R,
+  axis_flow g h x 0 = x /\ axis_flow g h x 1 = exp g * x + h * phi1 g /\
+  (forall t : R, is_derive (axis_flow g h x) t (g * axis_flow g h x t + h)).
+Proof.
+  intros g h x. split; [apply axis_flow_start | split; [apply axis_flow_time_one | intro t; apply axis_flow_solves_ode]].
+Qed.
+Print Assumptions C11_convergence_scaling_translation_2d.
+Print Assumptions C11_convergence_scaling_translation_3d.
+Print Assumptions C11_limit_is_time_one_flow.
 Local Open Scope Q_scope.
 
 (* non-vacuity: a concrete generator on a 3 x 2 lattice (align_corners = false) that satisfies the hull predicate, is
